@@ -404,7 +404,11 @@ def run_unit(seed=None, unit=None, tier="quick", stats=None):
     stop_kind = STOP_KINDS[ptape.draw(len(STOP_KINDS), "stop_kind")]
     incremental = ptape.draw(4, "incr") != 0
     focus = unit.get("focus") if unit is not None else (
-        "background" if seed[2] % 5 == 2 else "earlyclose" if seed[2] % 5 == 4 else None)
+        "background" if seed[2] % 5 == 2 else "earlyclose" if seed[2] % 5 == 4
+        else "abortstream" if seed[2] % 5 == 0 else None)
+    if focus == "abortstream":
+        stop_kind = "abort"
+        incremental = True
     if focus == "background":
         stop_kind = "none"
     if focus == "earlyclose":
@@ -440,9 +444,12 @@ def run_unit(seed=None, unit=None, tier="quick", stats=None):
                 stop.freeze = True
             return stop
 
+
         sim, reqs, results, status, knobs, al, stops = run_incremental(
             scn, st, stop_factory=factory, lenient=True,
-            force_early=True if focus == "earlyclose" else None)
+            force_early=(True if focus == "earlyclose"
+                         else False if focus == "abortstream" and r != 1 else None),
+            force_capacity=(1, 2)[r % 2] if focus == "abortstream" else None)
         bump(stats, "counts", "execs", len(reqs))
         # Work the executor settles in the background is by design left running (and the hook
         # waits for it). Stalled externals that only such work still waits for are released
